@@ -321,4 +321,86 @@ theorem diagM_orthonormal' (m : M6 ℝ) (d : Eig12 ℝ) (h : diagM m = .ok d) : 
   obtain ⟨a3, _⟩ := rowStep_inv 2 (by omega) _ _ a2 b2 h3
   rw [← h]; exact a3
 
+
+/-! ### diagonal input (used for the non-vacuity examples of `Props/C16.lean`) -/
+
+/-- state after a row is accepted without a sweep -/
+def acceptRow (l : Nat) (st : QL ℝ) (t : ℝ) : QL ℝ := ({ st with tst1 := t } : QL ℝ).setD l (st.getD l + st.f)
+
+/-- a row whose sub-diagonal entry is exactly zero is accepted without any sweep: `d[l] += f` -/
+theorem rowStep_of_zero (l : Nat) (hl : l ≤ 2) (st : QL ℝ) (ht : 0 ≤ st.tst1) (he : st.getE l = 0) :
+    ∃ t : ℝ, 0 ≤ t ∧ rowStep l st = .ok (acceptRow l st t) := by
+  unfold rowStep acceptRow
+  dsimp only
+  set h0 := Scalar.add (Scalar.cabs (st.getD l)) (Scalar.cabs (st.getE l)) with hh0
+  have hh : (0 : ℝ) ≤ h0 := by
+    rw [hh0, add_eq, cabs_eq, cabs_eq]; positivity
+  by_cases hc : Scalar.lt st.tst1 h0 = true
+  · rw [if_pos hc]
+    refine ⟨h0, hh, ?_⟩
+    have hs : ({ st with tst1 := h0 } : QL ℝ).isSmall l = true :=
+      isSmall_of_zero _ l hh (by rcases l with _ | _ | l <;> exact he)
+    have hf : ({ st with tst1 := h0 } : QL ℝ).findSmall l (3 - l) = l := by
+      have : 3 - l = (2 - l) + 1 := by omega
+      rw [this]; unfold QL.findSmall; rw [if_pos hs]
+    rw [hf]
+    have h3 : (l == 3) = false := by simp; omega
+    simp only [h3, Bool.false_eq_true, if_false, bne_self_eq_false]
+    rcases l with _ | _ | l <;> rfl
+  · rw [if_neg hc]
+    refine ⟨st.tst1, ht, ?_⟩
+    have hs : st.isSmall l = true := isSmall_of_zero _ l ht he
+    have hf : st.findSmall l (3 - l) = l := by
+      have : 3 - l = (2 - l) + 1 := by omega
+      rw [this]; unfold QL.findSmall; rw [if_pos hs]
+    rw [hf]
+    have h3 : (l == 3) = false := by simp; omega
+    simp only [h3, Bool.false_eq_true, if_false, bne_self_eq_false]
+    rfl
+
+theorem acceptRow_tst1 (l : Nat) (st : QL ℝ) (t : ℝ) : (acceptRow l st t).tst1 = t := by
+  unfold acceptRow; rw [setD_tst1]
+
+theorem acceptRow_getE (l k : Nat) (st : QL ℝ) (t : ℝ) : (acceptRow l st t).getE k = st.getE k := by
+  unfold acceptRow; rw [setD_getE]; rcases k with _ | _ | k <;> rfl
+
+/-- a diagonal matrix is returned as it is, with the identity as eigenvectors -/
+theorem diagM_diagonal' (a b c : ℝ) :
+    diagM (⟨a, 0, 0, b, 0, c⟩ : M6 ℝ) = .ok ⟨a, b, c, 1, 0, 0, 0, 1, 0, 0, 0, 1⟩ := by
+  have hrot : rot0 (⟨a, 0, 0, b, 0, c⟩ : M6 ℝ) =
+      { d := ⟨a, b, c, 1, 0, 0, 0, 1, 0, 0, 0, 1⟩, e0 := 0, e1 := 0, e2 := 0, f := 0, tst1 := 0 } := by
+    unfold rot0
+    dsimp only
+    have hL : Scalar.sqrt (Scalar.add (Scalar.mul (0 : ℝ) 0) (Scalar.mul (0 : ℝ) 0)) = 0 := by
+      rw [sqrt_eq, add_eq, mul_eq]; simp
+    rw [hL]
+    have hd : Scalar.divisible (0 : ℝ) 0 = false := by
+      rw [Bool.eq_false_iff]; intro h; exact divisible_ne_zero h rfl
+    simp only [hd, Bool.false_and, Bool.false_eq_true, if_false, one_eq, zero_eq]
+  unfold diagM
+  simp only [M6.allFinite, isFinite_eq, Bool.and_self, Bool.not_true, Bool.false_eq_true, if_false, hrot]
+  set st0 : QL ℝ :=
+    { d := ⟨a, b, c, 1, 0, 0, 0, 1, 0, 0, 0, 1⟩, e0 := 0, e1 := 0, e2 := 0, f := 0, tst1 := 0 } with hst0
+  obtain ⟨t0, ht0, r0⟩ := rowStep_of_zero 0 (by omega) st0 (le_refl _) rfl
+  rw [r0]
+  dsimp only
+  obtain ⟨t1, ht1, r1⟩ := rowStep_of_zero 1 (by omega) (acceptRow 0 st0 t0)
+    (by rw [acceptRow_tst1]; exact ht0) (by rw [acceptRow_getE]; rfl)
+  rw [r1]
+  dsimp only
+  obtain ⟨t2, _, r2⟩ := rowStep_of_zero 2 (by omega) (acceptRow 1 (acceptRow 0 st0 t0) t1)
+    (by rw [acceptRow_tst1]; exact ht1) (by rw [acceptRow_getE, acceptRow_getE]; rfl)
+  rw [r2]
+  simp [acceptRow, QL.setD, QL.getD, hst0]
+
+theorem formM_diag (a b c : ℝ) : formM (⟨a, b, c, 1, 0, 0, 0, 1, 0, 0, 0, 1⟩ : Eig12 ℝ) = ⟨a, 0, 0, b, 0, c⟩ := by
+  apply M6.ext' <;> simp only [formM, mul_eq, add_eq] <;> ring
+
+theorem isEigSys_diag (a b c : ℝ) : IsEigSys ⟨a, b, c, 1, 0, 0, 0, 1, 0, 0, 0, 1⟩ (⟨a, 0, 0, b, 0, c⟩ : M6 ℝ) := by
+  refine ⟨⟨?_, ?_, ?_, ?_, ?_, ?_⟩, formM_diag a b c⟩ <;> simp
+
+theorem multM0M1M0_diag (a b c x y z : ℝ) :
+    multM0M1M0 (⟨a, 0, 0, b, 0, c⟩ : M6 ℝ) ⟨x, 0, 0, y, 0, z⟩ = ⟨a * x * a, 0, 0, b * y * b, 0, c * z * c⟩ := by
+  apply M6.ext' <;> simp only [multM0M1M0, multM, mul_eq, add_eq] <;> ring
+
 end Refine.Model.Matrix
